@@ -41,7 +41,7 @@ CHECKS = {
             "limit, packets written minus finally acknowledged never exceeds it, an entry is appended only by a step "
             "that started with room and back-pressure off. Tied to the real MqttSink by exhaustive short and random "
             "operation lists over the in-memory transport and a peer's-view oracle.", "section 5, C05"),
-    "C06": ("Coq theorems (Props/C06.v, 11) on the sink model: outstanding ids pairwise distinct and non-zero, an "
+    "C06": ("Coq theorems (Props/C06.v, 12) on the sink model: outstanding ids pairwise distinct and non-zero, an "
             "explicit id in flight is refused, an acknowledgement completes only the head of the queue and only when "
             "type and id match, a send returns Ok only through its completed channel, a mismatch ends the connection "
             "and fails every pending send, a well-behaved peer never causes a close and every send completes. Tied "
@@ -138,6 +138,31 @@ CHECKS = {
             "spec oracle.", "section 5, C18"),
 }
 
+
+EXTRA = {
+    "C04": " Connection level: real v3/v5 servers, the responses seen by the peer are in request order (scan P16).",
+    "C05": " The origin of the limit (min of configured/overridden max_send and the peer's Receive Maximum) is checked on "
+           "real handshakes (engine hs, credit probes).",
+    "C06": " A PUBLISH that cannot be encoded reserves nothing (C06_failed_publish_reserves_nothing, task kind 8).",
+    "C07": " Pending sends at teardown: closing schedules on the real sinks (clause 71); a failing handler must end the "
+           "connection without waiting for another event (clause 8).",
+    "C10": " The glue to the in-flight limiter (impl SizedRequest for Decoded) is modelled (Model/Sized.v, engines "
+           "sized3/sized5): a PUBLISH with an incomplete payload is flagged whatever piece came with the header.",
+    "C12": " The limiter's view of decoded items (what wf_stream assumes) is tied to the codec by engines sized3/sized5; "
+           "the client role of the receive maximum is covered by the cli5 cases.",
+    "C13": " Where the flag comes from: io.rs announces back-pressure off once the buffer is flushed and the service is "
+           "ready (iostate back-pressure parts, clause 133); streamed chunk sends resume (clause 132).",
+    "C15": " Busy endpoints: the DISCONNECT the sink layer writes for a rule-breaking acknowledgement carries 0x83 "
+           "(wire log of Model/Sink.v carries the reason, clause 151); client role covered by scan P12.",
+    "C16": " Busy endpoints (outstanding sends x every acknowledgement type) and the limiter's view of streamed "
+           "publishes (a mis-flagged PUBLISH stalls the connection) are part of the run.",
+    "C18": " Where the validator is used: SUBSCRIBE / UNSUBSCRIBE with mixed-validity filter lists on real servers "
+           "(scan P15).",
+    "C19": " Client role: the window after CONNACK equals the announced Receive Maximum (sink engines, role 1).",
+    "C20": " Client keep-alive loop with an exhausted send window and keep-alive values at the u16 boundary of the "
+           "1.5x factor are among the real-time scenarios.",
+}
+
 ENGINES = [
     ("coq-proofs", "coq/", "Coq 8.16 models (Model/), independent specs (Spec/), proofs (Proofs/), statements (Props/)"),
     ("rs2v-translator", "tools/rs2v.py", "regenerates coq/Gen/Consts.v from the Rust source text on every run"),
@@ -170,6 +195,7 @@ def main():
     for pid in props:
         if pid in CHECKS:
             text, ref = CHECKS[pid]
+            text += EXTRA.get(pid, "")
             m["checks"].append({
                 "property_id": pid,
                 "quick_cmd": "python3 tools/check.py %s --tier quick" % pid,
